@@ -450,4 +450,36 @@ func runC12(r *common.Rand, tier string, o *common.Out, replay string) {
 		b := [][2]string{{"a", fmt.Sprintf("weight=%d", 1+(i+1)%4)}, {"b", "weight=2"}, {"c", fmt.Sprintf("weight=%d", 4-(i/4))}}
 		c12RunX(o, next(), "wrr", []c12op{{update: true, servers: a}, {selects: 9}, {update: true, servers: b}, {selects: 30}})
 	}
+	// the weight createWeighted derives from a server's raw metadata, against the model's own parse of the string
+	wg := []string{"weight=3", "weight=0", "weight=-2", "weight=+4", "weight=007", "weight=1e3", "weight=abc", "weight=", "", "weight=2&weight=5",
+		"w%65ight=6", "weight=%34", "weight=9223372036854775807", "weight=9223372036854775808", "x=1;weight=3", "weight=3;x", "%zz&weight=4",
+		"weight=4&%zz", "state=inactive&weight=2", "weight=1+1", "Weight=5", "weight =5", "a=b&weight=8&c", "&&weight=9&", "weight=-0", "weight=%2D3",
+		"weight=12&weight=x", "weight", "=weight", "weight=3%", "weight=٣"}
+	nw := 150
+	if tier == "thorough" {
+		nw = 5000
+	}
+	for i := 0; i < nw; i++ {
+		m := map[string]string{}
+		var spec []string
+		for k := 0; k < 1+r.Intn(5); k++ {
+			meta := wg[r.Intn(len(wg))]
+			if r.Chance(15) {
+				meta = meta + "&" + wg[r.Intn(len(wg))]
+			}
+			name := names[k]
+			m[name] = meta
+			spec = append(spec, name+"~"+hx([]byte(meta)))
+		}
+		id := next()
+		line := "wraw " + strings.Join(spec, ";")
+		o.Begin(id, line)
+		got := client.VerifCreateWeighted(m)
+		var obs []string
+		for k := 0; k < len(spec); k++ {
+			obs = append(obs, fmt.Sprintf("%s=%d", names[k], got[names[k]]))
+		}
+		o.Case(id, line, strings.Join(obs, ","), true)
+		o.Count("weight-from-metadata")
+	}
 }
